@@ -17,6 +17,7 @@ func (c *Ctx) newUnit(fn *ssa.Function, con *Contract) *Unit {
 		depthMax: 4, extUsed: map[string]bool{}, staticCells: map[*cellKey]Val{}, frameSkip: map[string]bool{}}
 	if con != nil {
 		u.arith = con.Arith
+		u.nowrap = con.NoWrap
 		u.abstract = con.Abstract
 	}
 	return u
